@@ -1210,6 +1210,73 @@ theorem C14_webseedGR_released (hle : CountLe add) (pl : Nat) (hb : BlocksC add 
 
 end
 
+/-! ### maybeWebseed's choice of range meets the hypotheses of the reservation theorems -/
+
+theorem holeFrom_lt (bl : List (Option Bytes)) (st f n : Nat) (h : holeFrom bl st = some (f, n)) :
+    f < bl.length := by
+  unfold holeFrom at h
+  dsimp only at h
+  split at h
+  · simp at h
+  · rename_i hlt
+    simp only [Option.some.injEq, Prod.mk.injEq] at h
+    omega
+
+theorem pickHole_lt (bl : List (Option Bytes)) (infl : List Nat) :
+    ∀ (fuel st f n : Nat), pickHole bl infl fuel st = some (f, n) → f < bl.length := by
+  intro fuel
+  induction fuel with
+  | zero => intro st f n h; simp [pickHole] at h
+  | succ fuel ih =>
+    intro st f n h
+    unfold pickHole at h
+    cases hh : holeFrom bl st with
+    | none => rw [hh] at h; simp at h
+    | some x =>
+      obtain ⟨f', n'⟩ := x
+      rw [hh] at h
+      dsimp only at h
+      split at h
+      · exact ih _ _ _ h
+      · simp only [Option.some.injEq, Prod.mk.injEq] at h
+        obtain ⟨rfl, rfl⟩ := h
+        exact holeFrom_lt bl st _ _ hh
+
+theorem capLen_le (r l : Nat) : capLen r l ≤ l := by
+  unfold capLen
+  dsimp only
+  repeat' split
+  all_goals omega
+
+/-- **maybeWebseed's range.**  For a piece whose block table has one entry per block, whatever is
+    in flight and whatever the web seed's measured rate: the range chosen (first idle hole, capped)
+    starts at a block boundary and lies inside the piece — the hypotheses under which
+    `C14_reservation_released` / `C14_webseedGR_released` say that the blocks `reserve o l` marked
+    in flight are exactly the blocks released by the fetch. -/
+theorem C14_maybe_range_inside (s : Store) (infl : List Nat) (rate5 o l : Nat)
+    (hn : s.blocks.length = ceilDiv s.pl CS) (h : maybeRange s infl rate5 = some (o, l)) :
+    o % CS = 0 ∧ o + l ≤ s.pl := by
+  unfold maybeRange at h
+  split at h
+  · cases hp : pickHole s.blocks infl (s.blocks.length + 1) 0 with
+    | none => rw [hp] at h; simp at h
+    | some x =>
+      obtain ⟨f, n⟩ := x
+      rw [hp] at h
+      simp only [Option.map_some, Option.some.injEq, Prod.mk.injEq] at h
+      obtain ⟨rfl, rfl⟩ := h
+      have hf := pickHole_lt s.blocks infl _ _ _ _ hp
+      refine ⟨by simp only [CS]; omega, ?_⟩
+      have hc := capLen_le rate5 (if f + n ≥ s.blocks.length then s.pl - f * CS else n * CS)
+      rw [hn] at hf
+      by_cases hend : f + n ≥ s.blocks.length
+      · rw [if_pos hend] at hc ⊢
+        simp only [CS, ceilDiv] at *; omega
+      · rw [if_neg hend] at hc ⊢
+        rw [hn] at hend
+        simp only [CS, ceilDiv] at *; omega
+  · simp at h
+
 /-! ### parseContentRange -/
 
 /-- **parseContentRange** accepts exactly: `bytes a-b/t` (as scanned by `Sscanf`) with
